@@ -21,6 +21,7 @@ func init() {
 			"(R4) Stream.Write sends data[:w], advances by w and subtracts w from sendWindow — the same value w — under sendWindowLock; the data-block limit fits the 16-bit length field (maximumStreamDataBlockSize ≤ 65535) and the encoder writes len(data) in 16 bits; " +
 			"(R5) the reader appends received data to the addressed stream's buffer with exactly the announced length, under that stream's lock, and signals readiness exactly when the buffer went from empty to non-empty; the close-write message is enqueued only after the write-deadline semaphore was taken (all writers drained). " +
 			"(R6, initial window) a stream's send window starts as the receive window the peer advertised: Multiplexer.read stores the value decoded from the open/accept message (or hands exactly it to newStream, which initialises the field from that parameter and nothing else); other constructor callers pass zero; " +
+			"(R7) in Multiplexer.enqueue the close-write case cancels no pending window increment (only a full close does, C24.R4): after a half-close the peer may still write and needs every credit for bytes already consumed; " +
 			"Not decided: ordering/no-loss under schedules (needs execution), TCP-like semantics of the carrier.",
 		Assumptions: []string{"ring.Buffer is a FIFO (C26)", "the carrier delivers bytes in order"},
 		Run:         runC23,
@@ -29,6 +30,7 @@ func init() {
 
 func runC23(c *eng.Ctx) {
 	c23InitialWindow(c)
+	c23HalfCloseKeepsCredits(c)
 	unpublished := func(fa *ssa.FieldAddr) (bool, string) {
 		base := eng.Unwrap(fa.X)
 		if call, ok := base.(*ssa.Call); ok && eng.CalleeName(call) == "multiplexing.newStream" {
